@@ -97,17 +97,17 @@ package geojson
 //@   loop 0 assert OwnsHole: g.extra != nil ==> owns(g.extra, pidx, pidx + geometry.sNpts(hole))
 
 // ---------------------------------------------------------------- what the writers need of an object, by kind
-// (a LineString is NOT covered: its writer hands &g.base (a *Line) to appendJSONSeries as a Series, a third implementer that the
-// Series model of package geometry does not describe; WriteInv is false for it, so collections holding one are outside these proofs)
+// (a LineString's writer hands &g.base (a *Line) to appendJSONSeries as a Series: the third implementer of the Series model, isLnS)
 //@ spec func collWriteUpTo(c *collection, k int) bool rec { k <= 0 || (collWriteUpTo(c,k-1) && WriteInv(collChild(c,k-1))) }
 //@ spec func WriteInv(o Object) bool rec {
 //@     o != nil &&
 //@     ite(isPointK(o), extraOK(as(o,*Point).extra, 1),
 //@     ite(isSimplePointK(o) || isRectK(o) || isCircleK(o), true,
+//@     ite(isLineStringK(o), geometry.LineShape(lineOf(o)) && extraOK(as(o,*LineString).extra, geometry.bsNpts(lineOf(o).baseSeries)),
 //@     ite(isPolygonK(o), polyShapeS(polyOf(o)) && extraOK(as(o,*Polygon).extra, polyNptsS(polyOf(o))),
 //@     ite(isFeatureK(o), ftBase(o) != nil && WriteInv(ftBase(o)) && extraOK(as(o,*Feature).extra, 0),
 //@     ite(isCollObjK(o) && !isCollK(o), collOf(o) != nil && collWriteUpTo(collOf(o), collN(collOf(o))) && extraOK(collOf(o).extra, 0),
-//@         false))))) }
+//@         false)))))) }
 //@ lemma collWriteAt(c *collection, i int, k int)
 //@   props C05 C17
 //@   requires collWriteUpTo(c, k) && 0 <= i && i < k
@@ -325,3 +325,39 @@ package geojson
 //@   props C05 C17
 //@   requires isPolygonK(o) && polyShapeS(polyOf(o)) && as(o,*Polygon).extra == nil
 //@   ensures WriteInv(o)
+
+// ---- LineString / MultiLineString writers
+//@ func LineString.AppendJSON
+//@   props C05 C17
+//@   arith order
+//@   requires g != nil && geometry.LineShape(g.base) && extraOK(g.extra, geometry.bsNpts(g.base.baseSeries))
+//@ func MultiLineString.AppendJSON
+//@   props C05 C17
+//@   arith order
+//@   unfold 2
+//@   requires g != nil && WriteInv(g)
+//@   loop 0 begin use collWriteAt(g.collection, $i, collN(g.collection))
+//@ func LineString.JSON
+//@   props C05 C17
+//@   arith order
+//@   requires g != nil && geometry.LineShape(g.base) && extraOK(g.extra, geometry.bsNpts(g.base.baseSeries))
+//@ func LineString.String
+//@   props C05 C17
+//@   arith order
+//@   requires g != nil && geometry.LineShape(g.base) && extraOK(g.extra, geometry.bsNpts(g.base.baseSeries))
+//@ func LineString.MarshalJSON
+//@   props C05 C17
+//@   arith order
+//@   requires g != nil && geometry.LineShape(g.base) && extraOK(g.extra, geometry.bsNpts(g.base.baseSeries))
+//@ func MultiLineString.JSON
+//@   props C05 C17
+//@   arith order
+//@   requires g != nil && WriteInv(g)
+//@ func MultiLineString.String
+//@   props C05 C17
+//@   arith order
+//@   requires g != nil && WriteInv(g)
+//@ func MultiLineString.MarshalJSON
+//@   props C05 C17
+//@   arith order
+//@   requires g != nil && WriteInv(g)
